@@ -389,6 +389,33 @@ pub fn decls(seed: u64, thorough: bool) -> Vec<Decl> {
         }
     }
 
+    // sanitizer lists: every written sanitizer acts at its written position (none dropped, merged with a
+    // neighbour or moved across a custom function); every order of {trim, case, with = f} for functions
+    // that commute with neither, and every sub-list
+    for (ci, case) in [SanSpec::Lower, SanSpec::Upper].into_iter().enumerate() {
+        for (fi, fname) in ["s_appendx", "s_padsp", "s_prepz", "s_trunc5", "s_repl"].into_iter().enumerate() {
+            let pool = [SanSpec::Trim, case.clone(), SanSpec::With(FnRef::new(fname, all_forms[(ci + fi) % all_forms.len()]))];
+            for (pi, perm) in crate::catalogue::permutations(3).iter().enumerate() {
+                for take in 2..=3 {
+                    // two-element prefixes of the six orders are the six ordered pairs
+                    let mut d = Decl::new(Inner::Str);
+                    d.sans = perm.iter().take(take).map(|i| pool[*i].clone()).collect();
+                    d.vals = match (pi + take + fi) % 3 {
+                        0 => Vals::None,
+                        1 => Vals::Std(vec![ValSpec::LenCharMax(bound("literal", "6", "6")), ValSpec::NotEmpty]),
+                        _ => Vals::Std(vec![ValSpec::Predicate(FnRef::new("p_ascii", FnForm::Closure))]),
+                    };
+                    d.derives = light.to_vec();
+                    if d.vals == Vals::None {
+                        d.derives.retain(|t| *t != Tr::TryFrom);
+                    }
+                    d.tags = vec![format!("c02:sanitizer-order:{}", d.sans.iter().map(|s| match s { SanSpec::Trim => "trim", SanSpec::Lower => "lower", SanSpec::Upper => "upper", SanSpec::With(_) => "with" }).collect::<Vec<_>>().join("+"))];
+                    out.push(d);
+                }
+            }
+        }
+    }
+
     // C. seed-dependent random combinations: spelling × kind × type, two bounds, random layout
     let mut r = runner(seed);
     let n_random = if thorough { 400 } else { 80 };
